@@ -206,6 +206,15 @@ class SP_inverseJacobian(_SPObj):
         before = (sp.getBottomT().gTM().copy(), sp.getTopT().gTM().copy(), sp.getLens().copy())
         J = sp.inverseJacobian(protect=True)
         after = (sp.getBottomT().gTM().copy(), sp.getTopT().gTM().copy(), sp.getLens().copy())
+        # history: the same relative plate pose re-placed under another base (pure translation d): the second query must
+        # describe the NEW state (no stale result keyed on the relative pose)
+        d = g.reals('m', 3, scale=2.0)
+        Sh = S.RpT(S.eye(3, Mb), d)
+        tmc = g.module(TMM).tm
+        sp.IK(top_plate_pos=tmc(S.mm(Sh, Mt)), bottom_plate_pos=tmc(S.mm(Sh, Mb)), protect=True)
+        self.J2 = sp.inverseJacobian(protect=True)
+        self.shift = Sh
+        sp.IK(top_plate_pos=t, bottom_plate_pos=b, protect=True)
         # derivative of the leg lengths: top pose (I + eps [V]) T_top, through the real kernel on dual numbers
         dl = None
         if g.symbolic:
@@ -230,6 +239,11 @@ class SP_inverseJacobian(_SPObj):
         for i in range(6):
             n = (Tp[i] - B[i]) / L[i]
             g.eq('row %d = [q x n, n]' % i, J[i, :], S.arr(list(S.cross3(B[i], n)) + list(n)))
+        L2, B2, Tp2 = spec_ik(S.mm(self.shift, Mb), S.mm(self.shift, Mt), sp._bottom_joints_local, sp._top_joints_local)
+        for i in range(6):
+            n2 = (Tp2[i] - B2[i]) / L2[i]
+            g.eq('after re-placing the platform: row %d = [q x n, n] at the new state' % i, self.J2[i, :],
+                 S.arr(list(S.cross3(B2[i], n2)) + list(n2)))
         if dl is not None:
             V = g.arr(self.V)
             for i in range(6):
